@@ -188,12 +188,12 @@ def streams(rng, tier):
     q = tier == "quick"
     protos = []
     # 1. random dicts x validate x reads
-    for _ in range(2500 if q else 60000):
+    for _ in range(2500 if q else 200000):
         d = rand_dict(rng) if rng.random() < 0.6 else consistent_dict(rng)
         validate = rng.random() < 0.65
         protos.append(("random", "m.from_raw", ["T" if validate else "F"] + enc_dict(d), d, ["R" + f for f in rand_reads(rng, d)]))
     # 2. one-value mutations of consistent dicts
-    for _ in range(800 if q else 20000):
+    for _ in range(800 if q else 60000):
         d = consistent_dict(rng)
         k = rng.choice(list(d))
         v = d[k]
@@ -245,7 +245,7 @@ def streams(rng, tier):
 
     # 6. from_email: documents -> parse_email (implementation) -> (raw, unparsed) tokens -> model of from_email
     docs = []
-    for _ in range(500 if q else 15000):
+    for _ in range(800 if q else 40000):
         d = consistent_dict(rng) if rng.random() < 0.7 else rand_dict(rng)
         d = {k: v for k, v in d.items() if not (isinstance(v, list) and not v) and not (isinstance(v, dict) and not v)}
         text = serialise(rng, d)
@@ -272,7 +272,7 @@ def streams(rng, tier):
     for mv in VERS + BAD_VERS + ["0.9", "1.3", "2.5"]:
         cases.append(Case("law-versions", "law.m.versions", [mv], kind="law"))
     cases.append(Case("law-lower-table", "law.m.lower_table", [], kind="law"))
-    for _ in range(400 if q else 8000):
+    for _ in range(400 if q else 20000):
         d = rand_dict(rng) if rng.random() < 0.6 else consistent_dict(rng)
         cases.append(Case("law-history", "law.m.history", [str(rng.randrange(10 ** 6))] + enc_dict(d), kind="law"))
     return cases
